@@ -76,6 +76,26 @@ type Sim struct {
 	AuthCount int     // authorizations performed at the provider (C03)
 	Secrets  []string // every secret value minted (C14)
 	cbPath   string
+	// several browsers: the fields Jar / Pending / AfterCB above belong to browser cur; the others are parked here
+	browsers []browserState
+	cur      int
+}
+
+type browserState struct {
+	Jar     string
+	Pending *url.Values
+	AfterCB string
+}
+
+// SwitchBrowser makes browser i the acting one (creating it when new).
+func (s *Sim) SwitchBrowser(i int) {
+	for len(s.browsers) <= i || len(s.browsers) <= s.cur {
+		s.browsers = append(s.browsers, browserState{})
+	}
+	s.browsers[s.cur] = browserState{s.Jar, s.Pending, s.AfterCB}
+	b := s.browsers[i]
+	s.Jar, s.Pending, s.AfterCB = b.Jar, b.Pending, b.AfterCB
+	s.cur = i
 }
 
 func newSim(w *World, r *mrand.Rand) *Sim {
@@ -94,8 +114,19 @@ func newSim(w *World, r *mrand.Rand) *Sim {
 func (s *Sim) marker(kind string) string {
 	s.nTok++
 	m := fmt.Sprintf("%s-%d-%08x", kind, s.nTok, s.r.Uint32())
-	s.Secrets = append(s.Secrets, m)
+	if kind != "CODE" { // an authorization code travels through the browser anyway; it is not one of C14's credentials
+		s.Secrets = append(s.Secrets, m)
+	}
 	return m
+}
+
+// allSecrets: client secret, every access / refresh / ID token minted, every PKCE verifier drawn.
+func (s *Sim) allSecrets() []string {
+	out := append([]string(nil), s.Secrets...)
+	for _, g := range s.w.gen.All {
+		out = append(out, g.Verifier)
+	}
+	return out
 }
 
 // ---- identity provider
